@@ -358,5 +358,507 @@ pub fn t_layout(a: &[i64]) -> Val {
     build_one(ps, &m)
 }
 
+
+// ------------------------------------------------------------------------------------------------
+// t_enum: one enum `m::E` (C08).
+// a = [ps, base, n, defaultable, copyable, cloneable, has_singleton, singleton,
+//      then per variant i (stride 3): has_value, value, is_default]      (n <= 8)
+// base: 0..7 = u8,u16,u32,u64,i8,i16,i32,i64 ; 8 = *const u8 ; 9 = undefined name ; 10 = f32
+const ENUM_BASES: [&str; 8] = ["u8", "u16", "u32", "u64", "i8", "i16", "i32", "i64"];
+const VARIANT_NAMES: [&str; 8] = ["V0", "V1", "V2", "V3", "V4", "V5", "V6", "V7"];
+pub fn t_enum(a: &[i64]) -> Val {
+    let ps = a[0] as usize;
+    let base = a[1];
+    let n = a[2] as usize;
+    let ty = if base >= 0 && base < 8 {
+        T::ident(ENUM_BASES[base as usize])
+    } else if base == 8 {
+        T::ident("u8").const_pointer()
+    } else if base == 9 {
+        T::ident("Nope")
+    } else {
+        T::ident("f32")
+    };
+    let mut attrs: Vec<A> = vec![];
+    if a[3] != 0 {
+        attrs.push(A::defaultable());
+    }
+    if a[4] != 0 {
+        attrs.push(A::copyable());
+    }
+    if a[5] != 0 {
+        attrs.push(A::cloneable());
+    }
+    if a[6] != 0 {
+        attrs.push(A::integer_fn("singleton", a[7] as isize));
+    }
+    let mut stmts: Vec<ES> = vec![];
+    let mut i = 0;
+    while i < n && i < 8 {
+        let b = 8 + i * 3;
+        let mut st = if a[b] != 0 {
+            ES::field_with_expr(VARIANT_NAMES[i], E::IntLiteral(a[b + 1] as isize))
+        } else {
+            ES::field(VARIANT_NAMES[i])
+        };
+        if a[b + 2] != 0 {
+            st = st.with_attributes([A::default()]);
+        }
+        stmts.push(st);
+        i += 1;
+    }
+    let m = M::new().with_definitions([ID::new((V::Public, "E"), ED::new(ty, stmts, attrs))]);
+    build_one(ps, &m)
+}
+
+// ------------------------------------------------------------------------------------------------
+// shared helpers for function-bearing templates
+const ARG_NAMES: [&str; 6] = ["a0", "a1", "a2", "a3", "a4", "a5"];
+const FN_NAMES: [&str; 6] = ["g0", "g1", "g2", "g3", "g4", "g5"];
+const CC_NAMES: [&str; 8] = ["C", "cdecl", "stdcall", "fastcall", "thiscall", "vectorcall", "system", "bogus"];
+
+/// type choice for arguments / return types: 0 u32, 1 u64, 2 *const T, 3 *mut u8, 4 undefined name, 5 bool, 6 *const Nope
+fn arg_type(k: i64) -> T {
+    match k {
+        0 => T::ident("u32"),
+        1 => T::ident("u64"),
+        2 => T::ident("T").const_pointer(),
+        3 => T::ident("u8").mut_pointer(),
+        4 => T::ident("Nope"),
+        5 => T::ident("bool"),
+        _ => T::ident("Nope").const_pointer(),
+    }
+}
+
+/// one function from 8 parameters: [recv, nargs, t0, t1, t2, ret(0 none, k+1), cc(0 absent, i+1), vis]
+fn make_function(name: &str, p: &[i64], attrs: Vec<A>) -> F {
+    let mut args: Vec<Ar> = vec![];
+    match p[0] {
+        1 => args.push(Ar::ConstSelf),
+        2 => args.push(Ar::MutSelf),
+        _ => {}
+    }
+    let nargs = p[1] as usize;
+    let mut j = 0;
+    while j < nargs && j < 3 {
+        args.push(Ar::named(ARG_NAMES[j], arg_type(p[2 + j])));
+        j += 1;
+    }
+    let mut attrs = attrs;
+    if p[6] != 0 {
+        let idx = (p[6] - 1) as usize;
+        attrs.push(A::calling_convention(CC_NAMES[if idx < 8 { idx } else { 7 }]));
+    }
+    let vis = if p[7] != 0 { V::Public } else { V::Private };
+    let mut f = F::new((vis, name), args).with_attributes(attrs);
+    if p[5] != 0 {
+        f = f.with_return_type(arg_type(p[5] - 1));
+    }
+    f
+}
+
+// t_impl: `type T { a: u32 }` with one impl function (C05, C16).
+// a = [ps, has_address, address, has_index, then 8 function parameters]
+pub fn t_impl(a: &[i64]) -> Val {
+    let ps = a[0] as usize;
+    let mut attrs: Vec<A> = vec![];
+    if a[1] != 0 {
+        attrs.push(A::integer_fn("address", a[2] as isize));
+    }
+    if a[3] != 0 {
+        attrs.push(A::integer_fn("index", 0));
+    }
+    let f = make_function("g0", &a[4..12], attrs);
+    let m = M::new()
+        .with_definitions([ID::new(
+            (V::Public, "T"),
+            TD::new([TS::field((V::Public, "a"), T::ident("u32"))]).with_attributes([A::align(4)]),
+        )])
+        .with_impls([FB::new("T", [f])]);
+    build_one(ps, &m)
+}
+
+// t_vft: `type T { vftable { m functions }, x: <ptr-sized> }` (C04, C16).
+// a = [ps, m, has_vsize, vsize, then per function (stride 10): has_index, index, 8 function parameters]   (m <= 4)
+pub fn t_vft(a: &[i64]) -> Val {
+    let ps = a[0] as usize;
+    let m_ = a[1] as usize;
+    let mut fns: Vec<F> = vec![];
+    let mut i = 0;
+    while i < m_ && i < 4 {
+        let b = 4 + i * 10;
+        let mut attrs: Vec<A> = vec![];
+        if a[b] != 0 {
+            attrs.push(A::integer_fn("index", a[b + 1] as isize));
+        }
+        fns.push(make_function(FN_NAMES[i], &a[b + 2..b + 10], attrs));
+        i += 1;
+    }
+    let mut vst = TS::vftable(fns);
+    if a[2] != 0 {
+        vst = vst.with_attributes([A::integer_fn("size", a[3] as isize)]);
+    }
+    let m = M::new().with_definitions([ID::new(
+        (V::Public, "T"),
+        TD::new([vst, TS::field((V::Public, "x"), T::ident("u8").const_pointer())]),
+    )]);
+    build_one(ps, &m)
+}
+
+// ------------------------------------------------------------------------------------------------
+// t_graph: k types T0..T{k-1} in module `m` (and optionally some in module `n`, imported by `m`), each with up to two
+// fields whose type is chosen per field (C10, C09, C02).
+// a = [ps, k, order, per type i (stride 7): in_n, nf, (kind, target) x 2, align]
+// field kind: 0 u32, 1 T_j by value, 2 *const T_j, 3 [T_j; 2], 4 #[base] T_j, 5 undefined name, 6 u64, 7 enum E (u32)
+// order: definitions of module m are emitted rotated by `order`.
+const TYPE_NAMES: [&str; 5] = ["T0", "T1", "T2", "T3", "T4"];
+const GF_NAMES: [&str; 2] = ["p", "q"];
+pub fn t_graph(a: &[i64]) -> Val {
+    let ps = a[0] as usize;
+    let k = a[1] as usize;
+    let order = a[2] as usize;
+    let mut defs_m: Vec<ID> = vec![];
+    let mut defs_n: Vec<ID> = vec![];
+    let mut i = 0;
+    while i < k && i < 5 {
+        let b = 3 + i * 7;
+        let nf = a[b + 1] as usize;
+        let mut stmts: Vec<TS> = vec![];
+        let mut j = 0;
+        while j < nf && j < 2 {
+            let kind = a[b + 2 + j * 2];
+            let tgt = a[b + 3 + j * 2] as usize;
+            let tn = TYPE_NAMES[if tgt < 5 { tgt } else { 0 }];
+            let ty = match kind {
+                0 => T::ident("u32"),
+                1 | 4 => T::ident(tn),
+                2 => T::ident(tn).const_pointer(),
+                3 => T::ident(tn).array(2),
+                5 => T::ident("Nope"),
+                6 => T::ident("u64"),
+                _ => T::ident("E"),
+            };
+            let mut st = TS::field((V::Public, GF_NAMES[j]), ty);
+            if kind == 4 {
+                st = st.with_attributes([A::base()]);
+            }
+            stmts.push(st);
+            j += 1;
+        }
+        let mut td = TD::new(stmts);
+        if a[b + 6] != 0 {
+            td = td.with_attributes([A::integer_fn("align", a[b + 6] as isize)]);
+        }
+        let def = ID::new((V::Public, TYPE_NAMES[i]), td);
+        if a[b] != 0 {
+            defs_n.push(def);
+        } else {
+            defs_m.push(def);
+        }
+        i += 1;
+    }
+    defs_m.push(ID::new(
+        (V::Public, "E"),
+        ED::new(T::ident("u32"), [ES::field("A"), ES::field("B")], []),
+    ));
+    // rotate module m's definitions
+    let len = defs_m.len();
+    let mut rotated: Vec<ID> = vec![];
+    let mut r = 0;
+    while r < len {
+        rotated.push(defs_m[(r + order) % len].clone());
+        r += 1;
+    }
+    let mm = M::new().with_uses([IP::from("n")]).with_definitions(rotated);
+    let mn = M::new().with_uses([IP::from("m")]).with_definitions(defs_n);
+    let mut st = SemanticState::new(ps);
+    // module addition order is part of `order` as well
+    let first_n = order % 2 == 1;
+    let r1 = if first_n { st.add_module(&mn, &IP::from("n")) } else { st.add_module(&mm, &IP::from("m")) };
+    if let Err(e) = r1 {
+        return outcome(Err(e));
+    }
+    let r2 = if first_n { st.add_module(&mm, &IP::from("m")) } else { st.add_module(&mn, &IP::from("n")) };
+    if let Err(e) = r2 {
+        return outcome(Err(e));
+    }
+    outcome(st.build())
+}
+
+// ------------------------------------------------------------------------------------------------
+// t_scope: which definition does the name `S` (or a built-in name) denote in module `a`? (C11)
+// a = [ps, name_kind(0 => "S", 1 => "u32"), def_a, def_b, def_xy, def_c, nuses, then uses u0..u3]
+// def_*: 1 => that module defines the name (sizes: a:8, b:12, x::y:16, c:20 bytes via extern types of that size, align 4)
+// use codes: 0 none, 1 `use b::S`, 2 `use x::y::S`, 3 `use b` (module), 4 `use x::y`, 5 `use c::S`, 6 `use c`, 7 `use zz` (no such module)
+pub fn t_scope(a: &[i64]) -> Val {
+    let ps = a[0] as usize;
+    let name = if a[1] != 0 { "u32" } else { "S" };
+    let ext = |size: isize| -> Vec<(grammar::Ident, As)> {
+        vec![(name.into(), As::from(vec![A::integer_fn("size", size), A::integer_fn("align", 4)]))]
+    };
+    let mut uses: Vec<IP> = vec![];
+    let nuses = a[6] as usize;
+    let mut i = 0;
+    while i < nuses && i < 4 {
+        match a[7 + i] {
+            1 => uses.push(IP::from("b").join(name.into())),
+            2 => uses.push(IP::from("x::y").join(name.into())),
+            3 => uses.push(IP::from("b")),
+            4 => uses.push(IP::from("x::y")),
+            5 => uses.push(IP::from("c").join(name.into())),
+            6 => uses.push(IP::from("c")),
+            7 => uses.push(IP::from("zz")),
+            _ => {}
+        }
+        i += 1;
+    }
+    let mut ma = M::new().with_uses(uses).with_definitions([ID::new(
+        (V::Public, "R"),
+        TD::new([TS::field((V::Public, "f"), T::ident(name))]).with_attributes([A::align(4)]),
+    )]);
+    if a[2] != 0 {
+        ma = ma.with_extern_types(ext(8));
+    }
+    let mut st = SemanticState::new(ps);
+    let mut mods: Vec<(M, &str)> = vec![(ma, "a")];
+    if a[3] != 0 {
+        mods.push((M::new().with_extern_types(ext(12)), "b"));
+    } else {
+        mods.push((M::new(), "b"));
+    }
+    if a[4] != 0 {
+        mods.push((M::new().with_extern_types(ext(16)), "x::y"));
+    } else {
+        mods.push((M::new(), "x::y"));
+    }
+    if a[5] != 0 {
+        mods.push((M::new().with_extern_types(ext(20)), "c"));
+    } else {
+        mods.push((M::new(), "c"));
+    }
+    for (m, p) in &mods {
+        if let Err(e) = st.add_module(m, &IP::from(*p)) {
+            return outcome(Err(e));
+        }
+    }
+    outcome(st.build())
+}
+
+// ------------------------------------------------------------------------------------------------
+// t_inherit: bases A and B, derived D (bases: a: A [, b: B]), and DD (base d: D)  (C06, C07, C04, C16)
+// a = [ps, a_vft, b_vft, two_bases, d_block, mutation, dd_present, dd_block, a_impl, b_impl, d_impl, clash, a_fn_vis, cc]
+//  a_vft/b_vft: base has a vftable block with functions f0(&self, x: u32) -> u32 and f1(&mut self)
+//  d_block: 0 none; 1 repeats A's two functions (+ own `h`); 2 only own `h` (no base prefix)
+//  mutation (applied to D's copy of f0 when d_block == 1): 0 none, 1 rename, 2 parameter type, 3 return type,
+//      4 receiver mutability, 5 calling convention, 6 drop f1 (shorter table), 7 extra parameter, 8 swap f0/f1
+//  *_impl: the type has an impl block with `pub fn k(&self)`; (b uses the same name `k` when clash != 0, else `kb`)
+//  a_fn_vis: visibility of A's impl function (0 private)
+//  cc: calling convention attribute on A's f0 (0 absent, i+1 = CC_NAMES[i])
+pub fn t_inherit(a: &[i64]) -> Val {
+    let ps = a[0] as usize;
+    let cc_attr = |v: i64| -> Vec<A> {
+        if v != 0 {
+            let idx = (v - 1) as usize;
+            vec![A::calling_convention(CC_NAMES[if idx < 8 { idx } else { 7 }])]
+        } else {
+            vec![]
+        }
+    };
+    let f0 = |name: &str, arg_ty: &str, ret: Option<&str>, mut_self: bool, extra: bool, cc: i64| -> F {
+        let mut args = vec![if mut_self { Ar::MutSelf } else { Ar::ConstSelf }, Ar::named("x", T::ident(arg_ty))];
+        if extra {
+            args.push(Ar::named("y", T::ident("u32")));
+        }
+        let f = F::new((V::Public, name), args).with_attributes(cc_attr(cc));
+        match ret {
+            Some(r) => f.with_return_type(T::ident(r)),
+            None => f,
+        }
+    };
+    let f1 = || F::new((V::Public, "f1"), [Ar::MutSelf]);
+    let base_vft = |cc: i64| TS::vftable([f0("f0", "u32", Some("u32"), false, false, cc), f1()]);
+    let field = |n: &str, t: &str| TS::field((V::Public, n), T::ident(t));
+    let word = if ps == 8 { "u64" } else { "u32" };
+
+    let mut a_stmts: Vec<TS> = vec![];
+    if a[1] != 0 {
+        a_stmts.push(base_vft(a[13]));
+    }
+    a_stmts.push(field("ax", word));
+    let mut b_stmts: Vec<TS> = vec![];
+    if a[2] != 0 {
+        b_stmts.push(base_vft(0));
+    }
+    b_stmts.push(field("bx", word));
+
+    let mut d_stmts: Vec<TS> = vec![];
+    match a[4] {
+        1 => {
+            let mu = a[5];
+            let d0 = f0(
+                if mu == 1 { "f0x" } else { "f0" },
+                if mu == 2 { "u64" } else { "u32" },
+                if mu == 3 { None } else { Some("u32") },
+                mu == 4,
+                mu == 7,
+                if mu == 5 { 3 } else { a[13] },
+            );
+            let h = F::new((V::Public, "h"), [Ar::ConstSelf]);
+            let fns = if mu == 6 {
+                vec![d0]
+            } else if mu == 8 {
+                vec![f1(), d0, h]
+            } else {
+                vec![d0, f1(), h]
+            };
+            d_stmts.push(TS::vftable(fns));
+        }
+        2 => d_stmts.push(TS::vftable([F::new((V::Public, "h"), [Ar::ConstSelf])])),
+        _ => {}
+    }
+    d_stmts.push(field("a", "A").with_attributes([A::base()]));
+    if a[3] != 0 {
+        d_stmts.push(field("b", "B").with_attributes([A::base()]));
+    }
+    d_stmts.push(field("dx", word));
+
+    let mut defs = vec![
+        ID::new((V::Public, "A"), TD::new(a_stmts)),
+        ID::new((V::Public, "B"), TD::new(b_stmts)),
+        ID::new((V::Public, "D"), TD::new(d_stmts)),
+    ];
+    if a[6] != 0 {
+        let mut dd_stmts: Vec<TS> = vec![];
+        if a[7] != 0 {
+            dd_stmts.push(TS::vftable([F::new((V::Public, "hh"), [Ar::ConstSelf])]));
+        }
+        dd_stmts.push(field("d", "D").with_attributes([A::base()]));
+        dd_stmts.push(field("ddx", word));
+        defs.push(ID::new((V::Public, "DD"), TD::new(dd_stmts)));
+    }
+    let impl_fn = |name: &str, addr: isize, vis: bool| {
+        F::new((if vis { V::Public } else { V::Private }, name), [Ar::ConstSelf])
+            .with_attributes([A::integer_fn("address", addr)])
+    };
+    let mut impls: Vec<FB> = vec![];
+    if a[8] != 0 {
+        impls.push(FB::new("A", [impl_fn("k", 0x100, a[12] != 0)]));
+    }
+    if a[9] != 0 {
+        impls.push(FB::new("B", [impl_fn(if a[11] != 0 { "k" } else { "kb" }, 0x200, true)]));
+    }
+    if a[10] != 0 {
+        impls.push(FB::new("D", [impl_fn(if a[11] == 2 { "k" } else { "kd" }, 0x300, true)]));
+    }
+    let m = M::new().with_definitions(defs).with_impls(impls);
+    build_one(ps, &m)
+}
+
+// ------------------------------------------------------------------------------------------------
+// t_items: item-level collisions (C14).
+// a = [ps, dup_type, dup_kind, vft_clash, ext_clash, second_module]
+//  dup_type: module m declares `T` twice (second one: dup_kind 0 => another type with a u64 field, 1 => an enum)
+//  vft_clash: `T` has a vftable block and the user also declares a type named `TVftable`
+//  ext_clash: an extern type named `T` as well
+//  second_module: module `n` also declares a `T` (must not collide)
+pub fn t_items(a: &[i64]) -> Val {
+    let ps = a[0] as usize;
+    let mut t_stmts: Vec<TS> = vec![];
+    if a[3] != 0 {
+        t_stmts.push(TS::vftable([F::new((V::Public, "f"), [Ar::ConstSelf])]));
+    }
+    t_stmts.push(TS::field((V::Public, "a"), T::ident("u8").const_pointer()));
+    let mut defs = vec![ID::new((V::Public, "T"), TD::new(t_stmts))];
+    if a[1] != 0 {
+        if a[2] != 0 {
+            defs.push(ID::new((V::Public, "T"), ED::new(T::ident("u32"), [ES::field("A")], [])));
+        } else {
+            defs.push(ID::new(
+                (V::Public, "T"),
+                TD::new([TS::field((V::Public, "b"), T::ident("u64"))]).with_attributes([A::align(8)]),
+            ));
+        }
+    }
+    if a[3] != 0 {
+        defs.push(ID::new(
+            (V::Public, "TVftable"),
+            TD::new([TS::field((V::Public, "z"), T::ident("u8").const_pointer())]),
+        ));
+    }
+    let mut m = M::new().with_definitions(defs);
+    if a[4] != 0 {
+        m = m.with_extern_types([("T".into(), As::from(vec![A::size(4), A::align(4)]))]);
+    }
+    let mut st = SemanticState::new(ps);
+    if let Err(e) = st.add_module(&m, &IP::from("m")) {
+        return outcome(Err(e));
+    }
+    if a[5] != 0 {
+        let n = M::new().with_definitions([ID::new(
+            (V::Public, "T"),
+            TD::new([TS::field((V::Public, "c"), T::ident("u8").mut_pointer())]),
+        )]);
+        if let Err(e) = st.add_module(&n, &IP::from("n")) {
+            return outcome(Err(e));
+        }
+    }
+    outcome(st.build())
+}
+
+// ------------------------------------------------------------------------------------------------
+// t_extern: singletons and extern values (C15).
+// a = [ps, t_singleton, t_addr, e_singleton, e_addr, nvals, per value (stride 4): has_addr, addr, type_kind, vis]
+//  type_kind: arg_type() codes, plus 7 => [u32; 4], 8 => *const E
+const EV_NAMES: [&str; 3] = ["g0", "g1", "g2"];
+pub fn t_extern(a: &[i64]) -> Val {
+    let ps = a[0] as usize;
+    let mut t_attrs: Vec<A> = vec![];
+    if a[1] != 0 {
+        t_attrs.push(A::integer_fn("singleton", a[2] as isize));
+    }
+    let mut e_attrs: Vec<A> = vec![];
+    if a[3] != 0 {
+        e_attrs.push(A::integer_fn("singleton", a[4] as isize));
+    }
+    let mut evs: Vec<EV> = vec![];
+    let n = a[5] as usize;
+    let mut i = 0;
+    while i < n && i < 3 {
+        let b = 6 + i * 4;
+        let ty = match a[b + 2] {
+            7 => T::ident("u32").array(4),
+            8 => T::ident("E").const_pointer(),
+            k => arg_type(k),
+        };
+        let mut attrs: Vec<A> = vec![];
+        if a[b] != 0 {
+            attrs.push(A::integer_fn("address", a[b + 1] as isize));
+        }
+        evs.push(EV::new(if a[b + 3] != 0 { V::Public } else { V::Private }, EV_NAMES[i], ty, attrs));
+        i += 1;
+    }
+    let m = M::new()
+        .with_definitions([
+            ID::new(
+                (V::Public, "T"),
+                TD::new([TS::field((V::Public, "a"), T::ident("u8").const_pointer())]).with_attributes(t_attrs),
+            ),
+            ID::new((V::Public, "E"), ED::new(T::ident("u32"), [ES::field("A")], e_attrs)),
+        ])
+        .with_extern_values(evs);
+    build_one(ps, &m)
+}
+
 pub type Template = fn(&[i64]) -> Val;
-pub const TEMPLATES: &[(&str, Template)] = &[("t_predefined", t_predefined), ("t_layout", t_layout)];
+pub const TEMPLATES: &[(&str, Template)] = &[
+    ("t_predefined", t_predefined),
+    ("t_layout", t_layout),
+    ("t_enum", t_enum),
+    ("t_impl", t_impl),
+    ("t_vft", t_vft),
+    ("t_graph", t_graph),
+    ("t_scope", t_scope),
+    ("t_inherit", t_inherit),
+    ("t_items", t_items),
+    ("t_extern", t_extern),
+];
